@@ -9,6 +9,7 @@ import Frrs.CliPath
 import Frrs.FileChange
 import Frrs.Replace
 import Frrs.Identity
+import Frrs.Commit
 namespace Frrs.Ops
 open Frrs Frrs.Wire
 
@@ -105,6 +106,37 @@ def dispatch (op : String) (args : List String) : Option String :=
       match parseMailmap (← decBytes c) with
       | none => pure "err"
       | some rs => pure (encBytes (mailmapRewriteLine rs (← decBytes l)))
+  -- commit.rs
+  | "keepcommit", [hc, fp, mk, pc, wm, dg, pe, pd, nf] => do
+      let pm (t : String) : Option PruneMode :=
+        if t == "never" then some .never else if t == "auto" then some .auto else if t == "always" then some .always else none
+      let on (t : String) : Option (Option Nat) := if t == "none" then some none else (t.toNat?).map some
+      pure (encBool (shouldKeepCommit (← decBool hc) (← on fp) (← on mk) (← pc.toNat?) (← decBool wm) (← decBool dg)
+        { pruneEmpty := ← pm pe, pruneDegenerate := ← pm pd, noFf := ← decBool nf }))
+  | "finalizeparents", [parents, emitted, alias] => do
+      -- parents: list of raw lines; emitted: comma list of marks or "-"; alias: comma list k>v (insertion order) or "-"
+      let ps ← decList parents
+      let em ← (if emitted == "-" then some [] else (emitted.splitOn ",").mapM (·.toNat?))
+      let al ← (if alias == "-" then some [] else (alias.splitOn ",").mapM fun it =>
+        match it.splitOn ">" with
+        | [a, b] => do pure ((← a.toNat?), (← b.toNat?))
+        | _ => none)
+      let amap : AliasMap := al.reverse      -- newest binding first
+      let pls := ps.map fun l =>
+        if startsWith l b!"merge " then ({ raw := l, mark := parseMergeMark l, isMerge := true } : ParentLine)
+        else { raw := l, mark := parseFromMark l, isMerge := false }
+      let r := finalizeParents (fun m => em.contains m) amap pls
+      let fp := match r.firstParentMark with | some m => toString m | none => "none"
+      pure (encBytes r.lines.flatten ++ " " ++ fp ++ " " ++ toString r.kept)
+  | "markline", [l] => do
+      pure (match parseMarkLine (← decBytes l) with | some m => toString m | none => "none")
+  | "frommark", [l] => do
+      pure (match parseFromMark (← decBytes l) with | some m => toString m | none => "none")
+  | "alias", [a, b] => do pure (encBytes (buildAlias (← a.toNat?) (← b.toNat?)))
+  | "renameref", [tr, br, r] => do
+      let pr (t : String) : Option (Option (Bytes × Bytes)) := if t == "none" then some none else (decPair t).map some
+      let rn ← decBytes r
+      pure (encBytes ((renameRef { tagRename := ← pr tr, branchRename := ← pr br } rn).getD rn))
   | _, _ => none
 
 end Frrs.Ops
